@@ -125,6 +125,12 @@ ASSUME \A t \in IntTexts : InI64(t)
 Inv == TypeOK /\ DataUntouched /\ CleanFinish /\ IndexMeaning /\ FirstLastSizeMeaning
        /\ MissingStepIsError /\ LiteralDenotes
 
+RECURSIVE HasMultiKey(_)
+HasMultiKey(v) ==
+  CASE v.k = "obj" -> Cardinality(DOMAIN v.o) > 1 \/ \E q \in DOMAIN v.o : HasMultiKey(v.o[q])
+    [] v.k = "arr" -> \E i \in 1..Len(v.a) : HasMultiKey(v.a[i])
+    [] OTHER -> FALSE
+
 Record ==
   IF case.fam = "inttext" THEN
     [p |-> "C07", kind |-> "source", src |-> "{{ " \o case.text \o " }}", data |-> EmptyMap,
@@ -133,6 +139,9 @@ Record ==
     [p |-> "C07", kind |-> "source", src |-> "{{ " \o case.text \o " }}", data |-> EmptyMap,
      expect |-> [ok |-> TRUE, out |-> case.want], nt |-> TRUE]
   ELSE [p |-> "C07", kind |-> "render", prog |-> prog, parts |-> parts, data |-> data,
-        expect |-> Result(St), nt |-> (case.fam # "path" \/ Len(prog[1].x.idx) > 0)]
+        \* printing an object with several keys follows the unspecified iteration order
+        expect |-> IF case.fam = "path" /\ status = "ok" /\ HasMultiKey(EvalOpt(BaseLayers(data), prog[1].x))
+                   THEN [ok |-> TRUE, anyout |-> TRUE] ELSE Result(St),
+        nt |-> (case.fam # "path" \/ Len(prog[1].x.idx) > 0)]
 Emit == (EmitAll /\ Done) => PrintT(<<"REPLAY", ToJson(Record)>>)
 =============================================================================
